@@ -189,6 +189,38 @@ Definition lock_wf (s : cstate) : Prop :=
   forall lb, cs_lblock s = Some lb -> b_hash lb = hb ->
     lb = b /\ cs_lparts s = Some (one_part ph) /\ cs_lround s < r.
 
+(* the machine holds polka q: +2/3 prevotes of round (fst q) for (snd q) are recorded in its vote sets *)
+Definition holds_polka (s : cstate) (q : Sync.polka) : Prop :=
+  exists bid, o_maj23 (prevotes (cs_votes s) (fst q)) = Some bid /\ bhash bid = snd q.
+
+(* the prevote step of the code (repair of F70) applies Sync.v's unlock rule: if the machine holds
+   the polkas of pol (all of rounds <= r) and Sync.v's node, after its unlock rule, prevotes the
+   proposal, then the machine after ITS unlock rule is unlocked or locked on the proposal *)
+Lemma sync_lock_ok (pol : list Sync.polka) (pw : Z) (s : cstate) :
+  lock_wf s ->
+  (forall q, In q pol -> fst q <= r /\ holds_polka s q) ->
+  Sync.prevote_of hb (Sync.unlock pol (abs pw s)) = hb ->
+  lock_ok r b ph (unlock_known r s).
+Proof.
+  intros Wf Held Un. destruct (unlock_known_lock r s) as (U1 & U2 & U3).
+  destruct (cs_lblock s) as [lb|] eqn:El.
+  2:{ left. rewrite U1. unfold unlock_fires. rewrite El. reflexivity. }
+  unfold Sync.unlock, abs in Un. cbn [Sync.n_lock] in Un. rewrite El in Un.
+  destruct (existsb (Sync.releases (cs_lround s) (b_hash lb)) pol) eqn:Ex.
+  - (* Sync.v releases the lock: so does the code *)
+    apply existsb_exists in Ex as (q & Hq & Rq). destruct (Held q Hq) as (Hle & bid & Hm & Hb).
+    unfold Sync.releases in Rq. apply andb_true_iff in Rq as [R1 R2]. apply Z.ltb_lt in R1. apply negb_true_iff in R2.
+    assert (Hne : bhash bid <> Some (b_hash lb)).
+    { rewrite Hb. destruct (snd q) as [v|]; [|discriminate]. apply N.eqb_neq in R2. congruence. }
+    assert (Fu : (Z.to_nat (r - cs_lround s) <= S (Z.to_nat (r - cs_lround s)))%nat) by lia.
+    pose proof (later_polka_other_complete (cs_votes s) lb (cs_lround s) _ r (fst q) bid ltac:(lia) Fu Hm Hne) as Fires.
+    left. rewrite U1. unfold unlock_fires. rewrite El, Fires. reflexivity.
+  - (* Sync.v keeps the lock: it is on the proposal *)
+    unfold Sync.prevote_of in Un. cbn [Sync.n_lock] in Un.
+    destruct (Wf lb El Un) as (-> & L2 & L3).
+    apply lock_ok_unlock_known. right. auto.
+Qed.
+
 Lemma total_power_nodes (l : list machine) :
   Sync.total_power (map (fun m => abs (power_of vals (m_idx m)) (m_state m)) l) = correct_power vals l.
 Proof. induction l as [|m l IH]; [reflexivity|]. cbn [map Sync.total_power fold_right correct_power Sync.n_power abs]. 
@@ -202,7 +234,8 @@ Theorem sync_round_decides_on_model (pol : list Sync.polka) (fresh : Sync.value)
   (forall m, In m ms -> ready_core (m_env m) h r p b hb ph (map m_idx ms) vals (m_state m) /\ lock_wf (m_state m)) ->
   (* Sync.v's picture of the configuration *)
   SyncWeak.InvL pol nodes ->
-  (forall n, In n nodes -> Sync.unlock pol n = n) ->                 (* the unlock rule has been applied *)
+  (* every machine holds the polkas of pol, all from rounds up to r (idealised gossip) *)
+  (forall m q, In m ms -> In q pol -> fst q <= r /\ holds_polka (m_state m) q) ->
   In mp ms ->
   hb = Sync.proposal_of fresh (Sync.unlock pol (abs (power_of vals (m_idx mp)) (m_state mp))) ->
   total_power vals = Sync.total_power nodes + faulty_power -> 0 <= faulty_power ->
@@ -216,15 +249,12 @@ Proof.
   assert (Hpn : In (abs (power_of vals (m_idx mp)) (m_state mp)) nodes).
   { unfold nodes. apply in_map_iff. exists mp. auto. }
   pose proof (SyncWeak.good_round_prevotes pol nodes hb HInv Hprem) as Un.
-  assert (Hlock : forall m0, In m0 ms -> lock_ok r b ph (m_state m0)).
+  assert (Hlock : forall m0, In m0 ms -> lock_ok r b ph (unlock_known r (m_state m0))).
   { intros m0 Hm0.
-    assert (Hn : In (abs (power_of vals (m_idx m0)) (m_state m0)) (map (Sync.unlock pol) nodes)).
-    { apply in_map_iff. exists (abs (power_of vals (m_idx m0)) (m_state m0)).
-      assert (Hn0 : In (abs (power_of vals (m_idx m0)) (m_state m0)) nodes) by (unfold nodes; apply in_map_iff; exists m0; auto).
-      split; [apply Hset; exact Hn0 | exact Hn0]. }
-    specialize (Un _ Hn). unfold Sync.prevote_of, abs in Un. cbn [Sync.n_lock] in Un.
-    unfold lock_ok. destruct (cs_lblock (m_state m0)) as [lb|] eqn:El; [|left; reflexivity].
-    right. destruct (proj2 (Hrdy m0 Hm0) lb El Un) as (-> & L2 & L3). auto. }
+    assert (Hn : In (Sync.unlock pol (abs (power_of vals (m_idx m0)) (m_state m0))) (map (Sync.unlock pol) nodes)).
+    { apply in_map. unfold nodes. apply in_map_iff. exists m0. auto. }
+    apply (sync_lock_ok pol (power_of vals (m_idx m0)) (m_state m0) (proj2 (Hrdy m0 Hm0)));
+      [intros q Hq; exact (Hset m0 q Hm0 Hq) | exact (Un _ Hn)]. }
   apply sync_schedule_decides; try assumption.
   - intros m0 Hm0. split; [exact (proj1 (Hrdy m0 Hm0)) | exact (Hlock m0 Hm0)].
   - unfold nodes in Htot. rewrite total_power_nodes in Htot. unfold quorum.
